@@ -22,7 +22,7 @@ SLACK_US = 250_000
 KNOBS = {
     "n_msgs": (1, 12),
     "N": [None, None, None, 1, 2, 3, 5],
-    "W": [None, None, 0.2, 1.0, 5.0],
+    "W": [None, None, 0.2, 1.0, 5.0, 0],
     "workers": [1, 1, 2],
     "p_stop": 0.75,
     "p_faults": 0.4,
